@@ -17,6 +17,7 @@ REQ = ['Evo.History', 'Evo.Compose']
 FN_RUN = 'fun c => [run_admits (fst c) (snd c)]'
 FN_STEP = 'fun o => [step_admits o]'
 MIN_POP = 5
+MIN_ELITISM_POP = 5      # GPAlgorithmParameters.min_pop_size_with_elitism (default, not varied by optrun)
 
 EVO_LIKE = ('evo', 'surrogate')
 
@@ -43,7 +44,7 @@ def transitions(rec):
         if size_param is None:
             size_param = cfg.get('max_pop_size', 20)
         t = {'gen': g, 'seen': list(seen), 'prev': list(prev), 'aprev': list(aprev), 'next': list(gen['members']),
-             'anext': list(anext), 'max': int(size_param)}
+             'anext': list(anext), 'max': int(size_param), 'must': []}
         if label == 'initial_assumptions':
             # g > 0: optimise() called again on the same instance - a new start on top of the kept archive
             t.update(kind='KInitial', seen=[], prev=[])
@@ -58,6 +59,10 @@ def transitions(rec):
                 t['kind'] = 'KEvolveDiv' if due else 'KMutateAll'
             else:
                 t['kind'] = 'KEvolveDiv' if due else 'KEvolve'
+                # Elitism._is_elitism_applicable: single objective and pop_size >= min_pop_size_with_elitism (5)
+                if (not due and cfg.get('elitism', 'keep_n_best') == 'keep_n_best' and not cfg['objective'].get('multi')
+                        and t['max'] >= MIN_ELITISM_POP and aprev):
+                    t['must'] = [aprev[0]]
         else:
             t['kind'] = 'KSearch'
             t['max'] = 1
@@ -85,15 +90,16 @@ def _nl(idx, l):
 
 def trans_to_coq(t, idx):
     return ('{| ot_kind := %s; ot_seen := %s; ot_prev := %s; ot_arch_prev := %s; ot_next := %s; ot_arch_next := %s; '
-            'ot_max := %s |}' % (t['kind'], _nl(idx, t['seen']), _nl(idx, t['prev']), _nl(idx, t['aprev']),
-                                 _nl(idx, t['next']), _nl(idx, t['anext']), c_nat(t['max'])))
+            'ot_max := %s; ot_must := %s |}' % (t['kind'], _nl(idx, t['seen']), _nl(idx, t['prev']), _nl(idx, t['aprev']),
+                                                _nl(idx, t['next']), _nl(idx, t['anext']), c_nat(t['max']),
+                                                _nl(idx, t['must'])))
 
 
 def step_to_coq(heap, t, idx):
     return ('{| os_kind := %s; os_heap := %s; os_seen := %s; os_prev := %s; os_arch_prev := %s; os_next := %s; '
-            'os_arch_next := %s; os_max := %s |}' % (t['kind'], heap, _nl(idx, t['seen']), _nl(idx, t['prev']),
-                                                     _nl(idx, t['aprev']), _nl(idx, t['next']), _nl(idx, t['anext']),
-                                                     c_nat(t['max'])))
+            'os_arch_next := %s; os_max := %s; os_must := %s |}' % (
+                t['kind'], heap, _nl(idx, t['seen']), _nl(idx, t['prev']), _nl(idx, t['aprev']), _nl(idx, t['next']),
+                _nl(idx, t['anext']), c_nat(t['max']), _nl(idx, t['must'])))
 
 
 def extra_cases(rec):
@@ -120,7 +126,7 @@ def describe(rec, t):
     short = lambda l: [str(u)[:6] for u in l]
     return {'cfg': rec['cfg'], 'generation': t['gen'], 'kind': t['kind'], 'prev': short(t['prev']),
             'archive_prev': short(t['aprev']), 'next': short(t['next']), 'archive_next': short(t['anext']),
-            'size_allowed': t['max'],
+            'size_allowed': t['max'], 'must_contain': short(t['must']),
             'members': {str(u)[:6]: {k: h['individuals'][u][k] for k in ('fitness', 'verified', 'op', 'native_generation')}
                         | {'parents': short(h['individuals'][u]['parents'])} for u in t['next']}}
 
@@ -142,6 +148,39 @@ def judge(ctx, group, recs):
             bad = [t for t, (b,) in zip(ts2, r2) if not b]
         out.append((rec, ok, bad))
     return out
+
+
+def run_in_check(ctx, recs, group='compose'):
+    """for harness/c06.py: `c06_compose.run_in_check(ctx, meta)` after the runs were made (meta = list of
+    optrun records).  Counts one evaluation per run, reports every transition the composed model does not
+    admit as a violation, plants one canary (a generation with a member recorded twice)."""
+    recs = [r for r in recs if r.get('history')]
+    canary = None
+    for r in recs:
+        if any(len(g['members']) >= 2 for g in r['history']['generations']):
+            canary = json.loads(json.dumps({k: r[k] for k in ('cfg', 'history', 'populations')}, default=str))
+            g = next(g for g in canary['history']['generations'] if len(g['members']) >= 2)
+            g['members'][1] = g['members'][0]
+            break
+    todo = recs + ([canary] if canary else [])
+    if canary:
+        ctx.canaries += 1
+    res = judge(ctx, group, todo)
+    if canary:
+        _, ok, _ = res.pop()
+        if not ok:
+            ctx.canaries_caught += 1
+    for rec, ok, bad in res:
+        ts = transitions(rec)
+        ctx.count(group, key=json.dumps(rec['cfg'], sort_keys=True),
+                  nontrivial=sum(1 for t in ts if t['kind'] in ('KEvolve', 'KEvolveDiv', 'KMutateAll', 'KSearch')) >= 2,
+                  optimiser=rec['cfg']['optimiser'], transitions=min(len(ts), 10))
+        for t in bad:
+            # a step outside the model's step relation is a broken correspondence (the loop body no longer does what
+            # Evo/Compose.v says); whether a clause of C06 fails on it is decided by holds_b on the same history
+            ctx.disagree(group, describe(rec, t), 'transition %d (%s) is not a step the composed loop model admits'
+                         % (t['gen'], t['kind']))
+    return res
 
 
 # ------------------------------------------------------------------------------------------------
